@@ -109,6 +109,14 @@ def run(ctx: Ctx) -> None:
 
     check_option_plumbing(ctx, e, "L2")
 
+    # ---- L6 --------------------------------------------------------------------------------------
+    ctx.rule("L6", "the include pre-pass every loader runs by default puts the text back together with exactly the separator it cut it with, so characters of a quoted value (including unusual line breaks) reach the parser unchanged", 1)
+    from .c15 import split_join_pairing
+
+    li = repo.func("parser.Parser.load_includes")
+    _, sep, okj, why, where = split_join_pairing(li)
+    ctx.check(okj, "L6", "load_includes: split / join", repo.loc("parser", where), f"separator {sep!r}", why)
+
     # ---- L3 --------------------------------------------------------------------------------------
     ctx.rule("L3", "every open()/codecs.open() call in the package passes encoding='utf-8'", 5)
     for qual, fn in repo.all_functions():
